@@ -69,12 +69,23 @@ SpineR(v, hp, acc, fuel) ==
   ELSE [ok |-> v.t = "nil", s |-> acc, tl |-> v]
 Spine(v, hp) == SpineR(v, hp, <<>>, Len(hp) + 1)
 
+\* Identity between two values as an implementation can observe it with eq? and cdr: pj is the very object pi,
+\* or (lists) the very pair reached from pi by following cdrs.  Empty vectors and strings are excluded (R7RS does
+\* not say whether two of them are the same object).
+ShareRel(pi, pj, hp) ==
+  CASE pj.t = "pair" -> pi.t = "pair" /\ \E q \in 1..Len(Spine(pi, hp).s) : Spine(pi, hp).s[q].v = pj.v
+    [] pj.t = "vec" -> pi.t = "vec" /\ pi.v = pj.v /\ Len(hp[pj.v].e) > 0
+    [] pj.t = "str" -> pi.t = "str" /\ pi.v = pj.v /\ Len(hp[pj.v].c) > 0
+    [] OTHER -> FALSE
+ShareMatrix(pl, n, hp) == [i \in 1..n |-> [j \in 1..n |-> ShareRel(pl[i], pl[j], hp)]]
+
 -----------------------------------------------------------------------------
 (* Equivalence *)
 Eqv(a, b) ==
   /\ a.t = b.t
   /\ CASE a.t \in {"nil", "void", "undef"} -> TRUE
        [] a.t \in {"int", "bool", "char", "sym", "pair", "vec", "str", "prom", "prim"} -> a.v = b.v
+       [] a.t = "mclo" -> a.l = b.l /\ a.e = b.e     \* closures of module Machine: one environment per creation
        [] OTHER -> FALSE   \* procedures: never compared by the generators
 
 RECURSIVE Equal(_, _, _, _)
